@@ -23,7 +23,7 @@ UnknownNames == {"", "sigmoidplainactivation", "SIGMOIDPLAINACTIVATION", "Sigmoi
 QuickBig == (4..70) \cup { 70 + 19 * k : k \in 1..48 } \cup {996}
 QuickTiny == ((-70)..(-7)) \cup { -70 - 21 * k : k \in 1..47 } \cup {-1074, -1023, -1022}
 ThoroughBig == 4..996
-ThoroughTiny == (-1074)..(-11)
+ThoroughTiny == (-1074)..(-13)
 QuickVals == {-3, -1, 0, 1, 2}
 ThoroughVals == {-5, -3, -1, 0, 1, 2, 4, 7}
 AllScales == {0, 10, 62, 63, 64, 70, 300, 990, -30, -1000}
